@@ -70,9 +70,45 @@ func change(kind, i int) drive.Event {
 		return drive.Seq(req("create", "u", "a,b", ix('k', "a"), ix('i', "b")), ins("u", M{"a": "1", "b": "2"}))
 	case 3:
 		return drive.Admin(dbmodel.Req{Kind: "view", Table: fmt.Sprint("v", i), Def: "t"})
+	case 5, 6:
+		// large rows: the storage (8 KiB chunks in this harness, 64 MiB in
+		// production) moves on to the next chunk, so that consecutive states lie
+		// in different chunks at unrelated positions
+		n := 2500
+		if kind == 6 {
+			n = 5000
+		}
+		return ins("t", M{"k": fmt.Sprint("b", i), "v": "big", "w": strings.Repeat(string(rune('a'+i%26)), n)})
 	default:
 		return drive.Tx(dbmodel.RowOp{Kind: "update", Table: "t", Row: M{"k": "r0"}, Set: M{"v": fmt.Sprint("y", i)}})
 	}
+}
+
+// chunkHistories: every sequence of small / 2.5 KB / 5 KB inserts of the given
+// length, each followed by a persist (1 s apart): state records spread over
+// several storage chunks.
+func chunkHistories(n int) []history {
+	var out []history
+	kinds := []int{0, 5, 6}
+	total := 1
+	for i := 0; i < n; i++ {
+		total *= len(kinds)
+	}
+	for x := 0; x < total; x++ {
+		h := history{}
+		big := false
+		for i, y := 0, x; i < n; i, y = i+1, y/len(kinds) {
+			k := kinds[y%len(kinds)]
+			big = big || k != 0
+			h.Changes = append(h.Changes, k)
+			h.Reopen = append(h.Reopen, false)
+			h.Gaps = append(h.Gaps, 1000)
+		}
+		if big {
+			out = append(out, h)
+		}
+	}
+	return out
 }
 
 const nChanges = 5
@@ -188,7 +224,7 @@ func build(h history) (*drive.Sys, []pstate, string) {
 		}
 		return m
 	}
-	for _, ev := range []drive.Event{req("create", "t", "k,v", ix('k', "k"), ix('i', "v")), ins("t", M{"k": "r0", "v": "x"}), drive.Persist()} {
+	for _, ev := range []drive.Event{req("create", "t", "k,v,w", ix('k', "k"), ix('i', "v")), ins("t", M{"k": "r0", "v": "x"}), drive.Persist()} {
 		if m := apply(ev); m != "" {
 			return s, nil, m
 		}
@@ -436,7 +472,10 @@ func run(c *lib.Ctx) {
 			hs = append(hs, h)
 		}
 	}
+	ch := chunkHistories(lib.Pick(c, 5, 7))
+	hs = append(hs, ch...)
 	if c.Shard == 0 {
+		c.Set("multi_chunk_histories", len(ch))
 		c.Set("max_segments_full_product", nFull)
 		c.Set("max_segments", nFull+1)
 		c.Set("histories", len(hs))
